@@ -32,22 +32,35 @@ BOUNDS = ('d in 2..4, n_k in m..m+2 (<= 7), rho in 1..3, m in rho..rho+2, cap in
 FUNCS = ('svd.svd_incomplete', 'sample.sample_tt')
 
 
+def _bonds(n, rho):
+    """rho: an int (all bonds) or the list of the d-1 bond ranks."""
+    return [int(rho)] * (len(n) - 1) if isinstance(rho, int) else [int(x) for x in rho]
+
+
 def _generic_ranks(n, rho):
     d = len(n)
+    b = _bonds(n, rho)
     rl = [1]
     for k in range(d - 1):
-        rl.append(min(rho, rl[-1] * n[k]))
+        rl.append(min(b[k], rl[-1] * n[k]))
     rr = [1]
     for k in range(d - 1, 0, -1):
-        rr.append(min(rho, rr[-1] * n[k]))
+        rr.append(min(b[k - 1], rr[-1] * n[k]))
     rr = rr[::-1]
-    return [min(a, b) for a, b in zip(rl[1:], rr[:-1])]       # bonds 1..d-1
+    return [min(a, b_) for a, b_ in zip(rl[1:], rr[:-1])]       # bonds 1..d-1
 
 
-def _setup(n, rho, m, tseed, sseed, scale=1.0):
-    Yt = gen.tt(n, rho, tseed, 'gauss')
+def _setup(n, rho, m, tseed, sseed, scale=1.0, kind='gauss', nform='list', seedform='int'):
+    """Target tensor (own dense export) and the samples.  nform: how the shape is handed to sample_tt ('list', 'array',
+    'tuple', 'int32'); seedform: 'int', 'gen' (a NumPy Generator seeded with sseed), 'kw_default_r' (m = 4 via the default)."""
+    Yt = gen.tt(n, [1] + _bonds(n, rho) + [1], tseed, kind)
     T = gen.dense(Yt) * scale
-    I, idx, idx_many = teneva.sample_tt(n, m, seed=sseed)
+    nn = {'list': list(n), 'array': np.array(n), 'tuple': tuple(n), 'int32': np.array(n, dtype=np.int32)}[nform]
+    sd = np.random.default_rng(sseed) if seedform == 'gen' else sseed
+    if seedform == 'kw_default_r':
+        I, idx, idx_many = teneva.sample_tt(nn, seed=sd)
+    else:
+        I, idx, idx_many = teneva.sample_tt(nn, m, seed=sd)
     I = np.asarray(I, dtype=int)
     y = T[tuple(I.T)]
     return T, I, idx, idx_many, y
@@ -90,19 +103,38 @@ def _well_conditioned(T, n, rho, I, idx, idx_many):
     return None
 
 
-def _call(I, y, idx, idx_many, cap):
+def _call(I, y, idx, idx_many, cap, e=None):
+    """cap None: svd_incomplete with its defaults (e = 1e-10, r = 1e12); e None: 1e-10."""
     try:
-        return teneva.svd_incomplete(I, y, idx, idx_many, 1e-10, cap), None
+        if cap is None:
+            return teneva.svd_incomplete(I, y, idx, idx_many), None
+        return teneva.svd_incomplete(I, y, idx, idx_many, 1e-10 if e is None else e, cap), None
     except Exception as e:      # noqa: BLE001 - exception freedom is the clause
         return None, f'{type(e).__name__}: {str(e)[:200]}'
 
 
 @clause('C20.sample_tt.layout', funcs=('sample.sample_tt',))
-def sample_layout(n, m, sseed):
+def sample_layout(n, m, sseed, nform='list', seedform='int'):
     """idx / idx_many describe d blocks of the form prefix (+) j (+) suffix, inside the bounds; prefixes and
-    suffixes are Latin-hypercube rows (pairwise distinct per column when the mode size is >= m)."""
+    suffixes are Latin-hypercube rows (pairwise distinct per column when the mode size is >= m).  nform / seedform:
+    the shape as list / ndarray / tuple / int32 array, the seed as int / Generator / None, m through the default (4);
+    an int seed or an equally seeded Generator reproduces the samples and leaves NumPy's global generator alone."""
     d = len(n)
-    I, idx, idx_many = teneva.sample_tt(n, m, seed=sseed)
+    nn = {'list': list(n), 'array': np.array(n), 'tuple': tuple(n), 'int32': np.array(n, dtype=np.int32)}[nform]
+    mk = (lambda: np.random.default_rng(sseed)) if seedform == 'gen' else (lambda: None) if seedform == 'none' else (lambda: sseed)
+    st = np.random.get_state()[1].tobytes()
+    if seedform == 'kw_default_r':
+        m = 4
+        I, idx, idx_many = teneva.sample_tt(nn, seed=mk())
+        I2 = teneva.sample_tt(nn, seed=mk())[0]
+    else:
+        I, idx, idx_many = teneva.sample_tt(nn, m, seed=mk())
+        I2 = teneva.sample_tt(nn, m, mk())[0]
+    if seedform != 'none':
+        if not np.array_equal(I, I2):
+            return FAIL('the same seed gives different samples')
+        if np.random.get_state()[1].tobytes() != st:
+            return FAIL("NumPy's global generator was used")
     I, idx, idx_many = np.asarray(I), np.asarray(idx), np.asarray(idx_many)
     if I.ndim != 2 or I.shape[1] != d or I.dtype.kind not in 'iu':
         return FAIL(f'I has shape {I.shape} dtype {I.dtype}')
@@ -159,22 +191,34 @@ def wellformed(n, rho, m, cap, tseed, sseed):
 
 
 @clause('C20.svd_incomplete.recover', funcs=FUNCS + ('act_one.get',))
-def recover(n, rho, m, cap, tseed, sseed, scale=1.0):
+def recover(n, rho, m, cap, tseed, sseed, scale=1.0, e=None, kind='gauss', nform='list', seedform='int'):
     """dense(result) equals the sampled rank-rho tensor up to rounding (relative 1e-6, conditioning rejection); also for
-    tensors of small / large overall scale (all retained singular values stay far above the absolute threshold 1e-10)."""
-    T, I, idx, idx_many, y = _setup(n, rho, m, tseed, sseed, scale)
+    tensors of small / large overall scale (all retained singular values stay far above the absolute threshold e, default
+    1e-10; for other scales e is handed over scaled along), ranks <= cap; rho may be a list of bond ranks (m >= max);
+    cap None = the defaults of svd_incomplete; the shape / seed are handed to sample_tt in the form nform / seedform;
+    the sample arrays are left unchanged."""
+    if seedform == 'kw_default_r':
+        m = 4
+    T, I, idx, idx_many, y = _setup(n, rho, m, tseed, sseed, scale, kind, nform, seedform)
     bad = _well_conditioned(T, n, rho, I, idx, idx_many)
     if bad:
         return SKIP(bad)
-    Z, err = _call(I, y, idx, idx_many, cap)
+    snap = gen.snapshot([I, y, np.asarray(idx), np.asarray(idx_many)])
+    Z, err = _call(I, y, idx, idx_many, cap, e)
     if err is not None:
         return FAIL('no result to compare, svd_incomplete raised ' + err)
+    if gen.snapshot([I, y, np.asarray(idx), np.asarray(idx_many)]) != snap:
+        return FAIL('svd_incomplete changed its arguments')
     msg = gen.wf(Z, n)
     if msg:
         return FAIL('not well-formed: ' + msg)
+    rk = [G.shape[2] for G in Z[:-1]]
+    if cap is not None and max(rk) > cap:
+        return FAIL(f'ranks {rk} exceed the cap {cap}')
     D = gen.dense(Z)
-    rel = np.linalg.norm(D - T) / np.linalg.norm(T)
-    return check(rel <= 1e-6, f'relative error {rel:.3e} > 1e-6, ranks {[G.shape[2] for G in Z[:-1]]}')
+    nT = float(np.abs(T).max())
+    rel = float(np.linalg.norm((D - T) / nT) / np.linalg.norm(T / nT))           # no under- / overflow of the squares
+    return FAIL(f'relative error {rel:.3e} > 1e-6, ranks {rk}') if not rel <= 1e-6 else PASS
 
 
 def _configs(tier, seed):
@@ -218,3 +262,49 @@ def cases(tier, seed):
         low = list(range(1, p['rho']))
         for cap in (low if big else low[k % 2:][:1]):
             yield 'C20.svd_incomplete.wellformed', dict(p, cap=cap)
+    # ---- parameter / regime coverage (audit) -------------------------------------------------------------------
+    g = gen.rng('C20.audit', seed)
+
+    def ts():
+        return int(g.integers(1 << 30))
+
+    # sample_tt: shape as ndarray / tuple / int32 array, seed as Generator / None, r through its default, large modes, d = 6..8
+    for nn in ([4, 5], [3, 3, 3], [6, 5, 4, 7]):
+        for nform in ('list', 'array', 'tuple', 'int32'):
+            for seedform in ('int', 'gen', 'none', 'kw_default_r'):
+                yield 'C20.sample_tt.layout', dict(n=nn, m=3, sseed=1 + len(nn), nform=nform, seedform=seedform)
+    for nn, m in (([600, 520], 2), ([64, 70, 66], 5), ([3] * 6, 2), ([2] * 8, 2), ([20] * 3, 12), ([5, 5], 5), ([300, 2, 300], 2),
+                  ([7, 7, 7], 1), ([1030, 4], 3)):
+        yield 'C20.sample_tt.layout', dict(n=nn, m=m, sseed=3)
+        yield 'C20.sample_tt.layout', dict(n=nn, m=m, sseed=3, nform='array', seedform='gen')
+    # recovery: argument forms, defaults of svd_incomplete (cap None), float caps
+    for n, rho, m in (([4, 5], 2, 3), ([4, 4, 5], 2, 3), ([4, 5, 4, 5], 2, 4), ([5, 6, 5], 3, 4)):
+        for nform, seedform in (('array', 'int'), ('tuple', 'gen'), ('int32', 'gen'), ('list', 'kw_default_r'), ('array', 'none')):
+            if seedform == 'kw_default_r' and min(n) < 4:
+                continue
+            for cap in (rho, float(rho) + 0.5, 1e12, None):
+                yield 'C20.svd_incomplete.recover', dict(n=n, rho=rho, m=m, cap=cap, tseed=ts(), sseed=len(n) + rho, nform=nform, seedform=seedform)
+    # overall scale with the absolute accuracy e scaled along (e = 1e-10 * scale), and other values of e at scale 1
+    for n, rho, m in (([3, 4], 2, 2), ([4, 5, 4], 2, 3), ([4, 4, 4, 4], 3, 4), ([5, 5, 5], 3, 3)) + ((([6, 5], 3, 5), ([3, 3, 3, 3, 3], 2, 2)) if big else ()):
+        for scale in (1e-100, 1e-12, 1e-8, 1e-3, 1e2, 1e8, 1e100):
+            for cap in ((rho, 10 ** 12) if big else (10 ** 12,) if scale in (1e-100, 1e8) else (rho,)):
+                yield 'C20.svd_incomplete.recover', dict(n=n, rho=rho, m=m, cap=cap, tseed=ts(), sseed=1, scale=scale, e=1e-10 * scale)
+        for e in (1e-13, 1e-12, 1e-8):
+            for cap in (rho, 10 ** 12):
+                yield 'C20.svd_incomplete.recover', dict(n=n, rho=rho, m=m, cap=cap, tseed=ts(), sseed=2, e=e)
+    # larger mode sizes (> 255, >= 512, > 1024), more modes, m well above rho, uniform cores, ragged rank profiles
+    for n, rho, m in (([600, 520], 2, 2), ([130, 3, 260], 2, 3), ([1030, 5], 3, 4), ([12, 10, 11], 3, 4), ([40, 33], 3, 6), ([3] * 5, 2, 2),
+                      ([3] * 6, 2, 3), ([2] * 7, 1, 2), ([2] * 8, 2, 2), ([9, 9, 9], 2, 7), ([4, 5, 4, 5], [2, 3, 1], 3), ([5, 4, 5, 4], [1, 3, 2], 4),
+                      ([6, 6, 6], [3, 1], 3), ([4, 4, 4, 4, 4], [2, 1, 2, 3], 3)) \
+            + ((([64, 70, 66], 4, 5), ([3] * 7, 2, 2), ([2] * 10, 2, 2), ([2000, 3], 2, 2), ([520, 3, 600], 2, 3)) if big else ()):
+        rmax = rho if isinstance(rho, int) else max(rho)
+        for kind in ('gauss', 'unif'):
+            for cap in (rmax, 10 ** 12):
+                for sseed in ((0, 1, 2) if big else (len(n) % 3,)):
+                    yield 'C20.svd_incomplete.recover', dict(n=n, rho=rho, m=m, cap=cap, tseed=ts(), sseed=sseed, kind=kind)
+    # more generator seeds (int and Generator) on one mid-size configuration
+    for sseed in range(3, 40 if big else 15):
+        yield 'C20.svd_incomplete.recover', dict(n=[4, 5, 4], rho=2, m=3 + sseed % 2, cap=(2, 10 ** 12)[sseed % 2], tseed=ts(), sseed=sseed * 7919,
+                                                 seedform=('int', 'gen')[sseed % 3 == 0])
+    # DOUBTFUL (disabled): sample_tt documents n as "list or np.ndarray of int/float", but float mode sizes raise
+    # TypeError ('float' object cannot be interpreted as an integer) in range(n_k): sample_tt([4.0, 5.0], 2, seed=0).
